@@ -70,6 +70,35 @@ func simGen(r *rand.Rand, tier string, n int) []*wire.Case {
 		mk("d-cycle-zero", s)
 	}
 	{
+		s := base() // a side that is empty from the start: the whole protocol prefix, then the decision at the first exit check
+		s.ehp, s.espd, s.eaction = nil, nil, nil
+		mk("d-no-enemies", s)
+	}
+	{
+		s := base()
+		s.ehp, s.espd, s.eaction = nil, nil, nil
+		s.cycles = 0
+		s.cenergy = []float64{100, 100}
+		s.ults = "1u100+2u100"
+		mk("d-no-enemies-cycle-zero", s)
+	}
+	{
+		s := base() // custom skill checks: one that allows (the skill-point cost still counts), one that never allows
+		s.ckind = []int{5, 5}
+		s.next = "1:s100,s101,s102,s100,s100|2:s100,s100,s100,s100"
+		s.dflt = "1:a101|2:a102"
+		s.cycles = 5
+		mk("d-custom-skill-check", s)
+	}
+	{
+		s := base()
+		s.ckind = []int{6, 5}
+		s.next = "1:s100,s100,a100|2:s100,s100,s100,s100,s100"
+		s.dflt = "1:a101"
+		s.cycles = 5
+		mk("d-custom-skill-check-never", s)
+	}
+	{
 		s := base() // skill decisions, SP running out, fall back to the default attack
 		s.next = "1:s100,s101,s102,s100|2:s1,s2,a100"
 		s.dflt = "1:a101|2:a102"
@@ -175,6 +204,13 @@ func simGen(r *rand.Rand, tier string, n int) []*wire.Case {
 		mk("d-break-extend", s)
 	}
 	{
+		s := base() // an insert queued while its source carries the abort flag, which is gone by the time the insert is taken: it runs
+		s.progs = append(s.progs, "Ap.1.1.50", "Rs.2")
+		s.progs[0] = "Ap.1.1.100+Ms.2+I.6.65.0+I.5.115.1"
+		s.progs[1] = "Ap.2.1.100+Ms.2+I.5.115.1+I.6.215.0" // the other order: still frozen when taken: dropped
+		mk("d-abort-flag-cleansed", s)
+	}
+	{
 		s := base() // action advance: the same unit acts again; gauge changes
 		s.progs[0] = "Ap.1.1.100+Gs.0"
 		s.progs[1] = "Ap.2.1.100+Gf.5000"
@@ -257,7 +293,7 @@ func simGen(r *rand.Rand, tier string, n int) []*wire.Case {
 			s := simSpec{cycles: 2 + r.Intn(3), start: -1, seed: r.Intn(1000)}
 			var next, dflts []string
 			for c := 0; c < nc; c++ {
-				s.ckind = append(s.ckind, pick(r, 0, 0, 3))
+				s.ckind = append(s.ckind, pick(r, 0, 0, 3, 5, 5, 6))
 				s.cspd = append(s.cspd, pick(r, 0.0, 20, 40))
 				s.cenergy = append(s.cenergy, 0)
 				var hits []string
@@ -294,6 +330,9 @@ func simGen(r *rand.Rand, tier string, n int) []*wire.Case {
 		nc, ne := 1+r.Intn(3), 1+r.Intn(3)
 		if r.Intn(4) == 0 {
 			nc, ne = 1+r.Intn(4), 1+r.Intn(5)
+		}
+		if r.Intn(25) == 0 {
+			ne = 0 // nobody to fight
 		}
 		s := simSpec{cycles: r.Intn(5), start: -1, seed: r.Intn(1000)}
 		nprogs := 6 + r.Intn(5)
@@ -339,12 +378,19 @@ func simGen(r *rand.Rand, tier string, n int) []*wire.Case {
 			}
 			s.progs = append(s.progs, strings.Join(cs, "+"))
 		}
+		if r.Intn(6) == 0 && nprogs > 3 {
+			// control effects that come and go inside one queue drain: a unit freezes itself, queues a cleanse and a
+			// follow-up that must be dropped only if its source is still frozen when it is taken
+			a, c, f := 1+r.Intn(nprogs-1), 1+r.Intn(nprogs-1), 1+r.Intn(nprogs-1)
+			s.progs[c] += "+Rs.2"
+			s.progs[a] += fmt.Sprintf("+Ms.2+I.%d.%d.0+I.%d.%d.1", c, pick(r, prios...), f, pick(r, prios...))
+		}
 		if r.Intn(2) == 0 {
 			s.start = 0
 		}
 		var next, dflt []string
 		for c := 0; c < nc; c++ {
-			s.ckind = append(s.ckind, r.Intn(5))
+			s.ckind = append(s.ckind, r.Intn(7))
 			s.cspd = append(s.cspd, pick(r, 0.0, 0, 10, 25.5, 40))
 			s.cenergy = append(s.cenergy, pick(r, 0.0, 50, 90, 100, 120))
 			s.cattack = append(s.cattack, 1+r.Intn(nprogs-1))
